@@ -63,7 +63,6 @@ structure TermCfg where
 inductive MatErr | keyError (col : Str)
   deriving Repr, DecidableEq
 
-deriving instance DecidableEq for Except
 
 /-- transformation of one referenced value inside `_materialize_template` -/
 def transformValue (cfg : TermCfg) (isTemplate : Bool) (tt : Option TermType) (datatype : Str) (v : Str) : Str :=
@@ -110,20 +109,5 @@ namespace Model
 open Py
 
 def xsdNs : Str := "http://www.w3.org/2001/XMLSchema#".toList
-
-def isSignedDigits (s : Str) : Bool :=
-  let d := match s with | '+' :: r => r | '-' :: r => r | r => r
-  !d.isEmpty && d.all Char.isDigit
-
-/-- `^([+-]?[0-9]+)\.0$` → `\1` -/
-def stripDotZero (v : Str) : Str :=
-  if endsWith v ['.', '0'] && isSignedDigits (v.take (v.length - 2)) then v.take (v.length - 2) else v
-
-/-- the natural-mapping canonicalisations of `_materialize_template` (repaired integer shape) -/
-def canonBuiltin (datatype v : Str) : Str :=
-  if datatype = xsdNs ++ "boolean".toList then asciiLower v
-  else if datatype = xsdNs ++ "dateTime".toList then replace v [' '] ['T']
-  else if datatype = xsdNs ++ "integer".toList then stripDotZero v
-  else v
 
 end Model
